@@ -39,16 +39,18 @@ except ImportError:
 def _iter_chain(exc, custom_tb=None, seen=None):
     if seen is None:
         seen = set()
-    seen.add(exc)
+    # remember identities (as ``traceback`` does): an exception class may
+    # define ``__eq__`` without ``__hash__``
+    seen.add(id(exc))
     its = []
     context = exc.__context__
     cause = exc.__cause__
-    if cause is not None and cause not in seen:
+    if cause is not None and id(cause) not in seen:
         its.append(_iter_chain(cause, False, seen))
         its.append([(traceback._cause_message, None)])
     elif (context is not None and
             not exc.__suppress_context__ and
-            context not in seen):
+            id(context) not in seen):
         its.append(_iter_chain(context, None, seen))
         its.append([(traceback._context_message, None)])
     its.append([(exc, custom_tb or exc.__traceback__)])
